@@ -1,6 +1,7 @@
 import SockModel.Model.PoolLemmas
 import SockModel.Spec.C10
 import SockModel.Generated.Funcs
+import SockModel.Basic.TieTactic
 /-!
 # C10  BufferPool accounting and recycling, including the sockets' receive pools
 
@@ -276,8 +277,13 @@ theorem tie_create_maxM1 (n reserve : Nat) :
   simp only [Gen.BufferPool_m_maxCount, create, sizeMax]
   omega
 
-theorem tie_get (p : Pool) :
-    match Gen.BufferPool_Get p.maxM1 p.idle.isEmpty p.busy.length with
+/-- the decision structure of the model's `get` -/
+def modelGetChoice (maxM1 : Nat) (idleEmpty : Bool) (busySize : Nat) : Gen.GetChoice :=
+  if idleEmpty then (if busySize ≤ maxM1 then .allocateNew else .throwOutOfBuffers) else .reuseIdleTop true
+
+/-- ... and that it is: each choice determines the result of the model's `get` completely -/
+theorem model_get_choice (p : Pool) :
+    match modelGetChoice p.maxM1 p.idle.isEmpty p.busy.length with
     | .allocateNew =>
       Pool.get p = .ok p.next { p with busy := p.busy ++ [p.next], next := p.next + 1,
                                        len := upd p.len p.next 0, cap := upd p.cap p.next 0 }
@@ -286,13 +292,14 @@ theorem tie_get (p : Pool) :
       ∃ b rest, p.idle = b :: rest ∧
         Pool.get p = .ok b { p with idle := rest, busy := p.busy ++ [b],
                                     len := if clear then upd p.len b 0 else p.len } := by
-  unfold Gen.BufferPool_Get Pool.get
+  unfold modelGetChoice Pool.get
   cases hi : p.idle with
-  | nil =>
-    by_cases hb : p.busy.length ≤ p.maxM1
-    · have : (p.busy.length : Int) ≤ (p.maxM1 : Int) := by omega
-      simp [hb, this]
-    · have : ¬ (p.busy.length : Int) ≤ (p.maxM1 : Int) := by omega
-      simp [hb, this]
+  | nil => by_cases hb : p.busy.length ≤ p.maxM1 <;> simp [hb]
   | cons b rest => exact ⟨b, rest, by simp⟩
+
+/-- `BufferPool::Get` as compiled from the current source takes the same path as the model's `get` for every
+`m_maxCount`, `m_idle.empty()` and `m_busy.size()` -/
+theorem tie_get (maxM1 : Nat) (idleEmpty : Bool) (busySize : Nat) :
+    Gen.BufferPool_Get maxM1 idleEmpty busySize = modelGetChoice maxM1 idleEmpty busySize := by
+  cases idleEmpty <;> simp only [Gen.BufferPool_Get, modelGetChoice] <;> tie_choice
 end SockModel.Props.C10
